@@ -2,6 +2,7 @@ package e1
 
 import (
 	"encoding/hex"
+	"github.com/polynetwork/poly/native/service/governance/neo3_state_manager"
 	"sort"
 
 	"github.com/ontio/ontology-crypto/keypair"
@@ -181,4 +182,14 @@ func (v View) HasAssetBinding(src, dst uint64) bool {
 	_, a := ab.LockProxyMap[dst]
 	_, b := ab.AssetMap[dst]
 	return a && b
+}
+
+func (v View) SVApplyRaw(id uint64) []byte {
+	return v.Get(chain.Neo3State, []byte(neo3_state_manager.STATE_VALIDATOR_APPLY), u64(id))
+}
+func (v View) SVRemoveRaw(id uint64) []byte {
+	return v.Get(chain.Neo3State, []byte(neo3_state_manager.STATE_VALIDATOR_REMOVE), u64(id))
+}
+func (v View) StateValidatorsRaw() []byte {
+	return v.Get(chain.Neo3State, []byte(neo3_state_manager.STATE_VALIDATOR))
 }
